@@ -110,6 +110,12 @@ def work(args):
         tup = None
         if truthy:
             try:
+                if R.random() < 0.5:
+                    # the Solution object is a function of its parameters: calls with OTHER parameter values (and a repeat of
+                    # the same ones) come first; the call that is judged must not depend on them
+                    other = [F(R.randint(-3, 3), R.choice([1, 2])) for _ in range(max(va, 0))]
+                    s(*[(float(x) if as_float else x) for x in other])
+                    s(*[(float(x) if as_float else x) for x in free])
                 tup = ('ok', tuple(s(*[(float(x) if as_float else x) for x in free])))
             except Exception as e:
                 tup = ('exc', type(e).__name__, str(e)[:60])
@@ -227,6 +233,8 @@ def replay(ctx, case):
     ok = bool(s) == cons and (not cons or s.varargs == n - rank)
     if ok and cons:
         try:
+            s(*[conv(F(1, 2)) for _ in free[:s.varargs]])      # earlier calls of the same Solution with other / the same values
+            s(*[conv(x) for x in free[:s.varargs]])
             t = s(*[conv(x) for x in free[:s.varargs]])
             print('call ->', t)
             ok = None not in t and all(abs(sum(float(a) * float(b) for a, b in zip(r[:-1], t)) - float(r[-1])) < 1e-9 for r in rows)
